@@ -19,7 +19,7 @@ def run(ctx):
     tab.id = 'C12-TAB'
     for f in tab.findings:
         f.rule = tab.id
-    return sC12.lzss_rules(ctx) + [tabs.rule_compression_algorithms(ctx), sC12.rule_match(ctx), sC12.rule_end(ctx), sC12.rule_caller(ctx), sC12.rule_literal(ctx), tab]
+    return sC12.lzss_rules(ctx) + [tabs.rule_compression_algorithms(ctx), sC12.rule_match(ctx), sC12.rule_end(ctx), sC12.rule_caller(ctx), sC12.rule_literal(ctx), tab, sC12.rule_extent(ctx)]
 
 # fourth strengthening round (session G11): rules of sa/rules/sC12.py
 DECIDES += (' C12-MATCH: the match finder takes candidates from the hash bucket of the 3-byte key at the current position (stored under keys of the same width), starts at that width, '
